@@ -253,6 +253,14 @@ def runLine (line : String) : String :=
   | [id, "LHAS", set, cp] => id ++ "\t" ++ b01 ((namedSet set).has cp.toNat!)
   | [id, "LBIT", set, cp] => id ++ "\t" ++ b01 (bitsetHas set cp.toNat!)
   | [id, "LDE", set, x] => id ++ "\t" ++ xs (decodeEncode (psetOfTok set) (tokBytes x))
+  | [id, "LOBS", c, sc, un, pw, ho, po, dp, oq, sg, qu, fr] =>
+    -- getters / accessors of a url value given by its stored fields (as dumped from the Go object)
+    let opt := fun (t : String) => if t == "-" then none else some (tokBytes t)
+    let segs : List Bytes := if sg == "-" then [] else (sg.splitOn ",").map fun t => unhexList t.toList
+    let u : Url := { scheme := tokBytes sc, username := tokBytes un, password := tokBytes pw, host := opt ho, port := opt po,
+                     decodedPort := dp.toNat!, path := ⟨segs, oq == "1"⟩, query := opt qu, fragment := opt fr }
+    let H : Heap := { urls := [{ u := u, sp := none, cfg := cfgOfTok c }], sps := [] }
+    id ++ "\t" ++ "|".intercalate (((obsUrl H 0).splitOn "|").take 19)
   | [id, "LF3", x] =>
     -- class predicate of finding F3: removing tab/newline bytes splices an ill-formed UTF-8 sequence
     id ++ "\t" ++ b01 (goRunes (removeTabNl (tokBytes x)).1 != (goRunes (tokBytes x)).filter (fun c => !(c.toNat == 9 || c.toNat == 10 || c.toNat == 13)))
